@@ -11,6 +11,16 @@ CHECKS = {
          "Differential/round-trip check of VarInt, StreamId, PushId against a reference written from RFC 9000: exhaustive over all 1-/2-byte strings (3-byte in thorough), all values < 2^16 (2^22), every form boundary +-2 in every form and truncation, stream-id kinds x boundary indices x increments; millions of random 64-bit values / strings beyond. Exploration: no counterexample in the enumerated and sampled space.",
          "trusted: reference varint (src/reference/varint.rs, self-tested against RFC 9000 A.1 vectors and octets), Display of StreamId as the only view of initiator/direction",
          "DESIGN.md section 3 C16"),
+ "C15": ("codec",
+         "property-based testing + exhaustive enumeration; oracles = round trip, and a differential against an independent strict RFC 7541 Huffman decoder / exact 128-bit prefixed-integer decoder",
+         "h3's Huffman/string/prefixed-integer codecs (reached through the cfg-guarded re-export) are compared with a reference built from the RFC 7541 code table (vendored from octets, cross-checked against octets' decoder): exhaustive over all Huffman payloads of 0..2 bytes (0..3 thorough), all strings of 0..2 bytes x prefix sizes, integers at every power-of-two and prefix boundary x sizes 1..8, all continuation patterns over {00,01,7f,80,ff}^k; random valid encodings with every padding length 0..15 and padding pattern, EOS splices, random 64-bit integers. Both directions are asserted (accepts exactly). One known finding (padding of >= 8 one-bits accepted) is excluded by an exact predicate and counted.",
+         "trusted: reference Huffman trie + table (src/reference/huffman*.rs), reference prefix-int arithmetic in u128; interpretation that 2^62..u64::MAX may be refused but never wrapped",
+         "DESIGN.md section 3 C15"),
+ "C18": ("codec",
+         "property-based testing + exhaustive enumeration; oracle = reference wire format varint(S/4)||P, round trip, and reference acceptance rule for decode",
+         "Datagram::new/encode/decode compared with the reference wire format for all quarter ids < 2^16 (2^20 thorough), every varint form boundary, payloads 0..1500, nine consumption patterns of the encoded Buf (copy, byte steps, mixed steps, vectored, jumps); decode over all strings <= 2 bytes (3 thorough), every truncation of every form, quarter ids around 2^60; rejected inputs must carry H3_DATAGRAM_ERROR.",
+         "trusted: reference varint; error code observed through LocalError::from(InternalConnectionError)",
+         "DESIGN.md section 3 C18"),
 }
 
 NOT_YET = "check not built yet in this session (see DESIGN.md section 5 for the construction order); no claim is made"
